@@ -118,7 +118,10 @@ where
                 self.emit(Event::ClearCache, EventData::ClearCache);
             }
         }
-        if sec != "g" || !self.has_auto_build_role_links_enabled() {
+        if sec != "g"
+            || !self.has_auto_build_role_links_enabled()
+            || !rule_added
+        {
             return Ok(rule_added);
         }
         #[cfg(not(feature = "incremental"))]
@@ -202,7 +205,12 @@ where
                 self.emit(Event::ClearCache, EventData::ClearCache);
             }
         }
-        if sec != "g" || !self.has_auto_build_role_links_enabled() {
+        // a rejected batch stored nothing: linking its rules would leave the
+        // role graph with links no stored rule asserts
+        if sec != "g"
+            || !self.has_auto_build_role_links_enabled()
+            || !rules_added
+        {
             return Ok(rules_added);
         }
         #[cfg(not(feature = "incremental"))]
